@@ -112,6 +112,8 @@ func runWorker(kind string) {
 	switch kind {
 	case "dot":
 		dotWorker()
+	case "history":
+		historyWorker()
 	default:
 		fmt.Println("unknown worker", kind)
 		os.Exit(2)
